@@ -253,7 +253,7 @@ def run(tier):
     spec = C01Spec(tier)
     report = Report(PROP, "model_checking", tier)
     if tier == "quick":
-        explore.run(spec, report, tier, 2, 100000, 200)
+        explore.run(spec, report, tier, 2, 100000, 800)
     else:
         explore.run(spec, report, tier, 3, 2000000, 9000)
     e1check.confirm_all(spec, report)
